@@ -80,6 +80,10 @@ def overload_sets(tier):
     if tier == "thorough":
         sets += list(itertools.permutations(one, 3))
         sets += list(itertools.permutations([s for s in two if not s[1]][:6], 3))
+    # variadic overloads f(*x: P): pairs of them, and one of them before / after a one-parameter overload
+    var = [(("*" + p,), False) for p in ["int", "str", "None", "float"]]
+    sets += list(itertools.permutations(var, 2))
+    sets += [(a, v) for a in one[:4] for v in var[:3]] + [(v, a) for a in one[:4] for v in var[:3]]
     return sets
 
 
@@ -97,7 +101,8 @@ def calls_for(ovset):
     """argument type tuples: at most one union/Any argument"""
     ats = arg_types()
     plain = [a for a in ats if len(members(a)) == 1 and a != "Any"]
-    maxar = max(len(s[0]) for s in ovset)
+    variadic = any(s[0][0].startswith("*") for s in ovset)
+    maxar = 2 if variadic else max(len(s[0]) for s in ovset)
     out = [(a,) for a in ats]
     if maxar == 2:
         for a in ats:
@@ -112,6 +117,8 @@ def calls_for(ovset):
     styled = []
     for c in out:
         styled.append((c, "pos"))
+        if variadic:
+            continue        # a variadic parameter takes no keyword
         styled.append((c, "kw"))
         if len(c) == 2:
             styled.append((c, "mix"))
@@ -133,6 +140,8 @@ def units(tier):
 
 def _accepts(ov, args):
     ptypes, has_default = ov
+    if ptypes[0].startswith("*"):
+        return all(_sub(a, ptypes[0][1:]) for a in args)
     if len(args) > len(ptypes):
         return False
     if len(args) < len(ptypes) and not (has_default and len(args) == len(ptypes) - 1):
@@ -150,9 +159,9 @@ def _first(ovset, args):
 def _module(ovset, calls):
     lines = [PRE]
     for i, (ptypes, has_default) in enumerate(ovset):
-        ps = ", ".join("%s: %s%s" % ("xy"[j], p, " = 0" if (has_default and j == 1) else "") for j, p in enumerate(ptypes))
+        ps = ", ".join(("*x: %s" % p[1:]) if p.startswith("*") else "%s: %s%s" % ("xy"[j], p, " = 0" if (has_default and j == 1) else "") for j, p in enumerate(ptypes))
         lines.append("@overload\ndef f(%s) -> R%d: ..." % (ps, i))
-    lines.append("def f(x: object = None, y: object = None) -> object: return x")
+    lines.append("def f(*x: object, y: object = None) -> object: return x" if any(p[0].startswith("*") for p, _ in ovset) else "def f(x: object = None, y: object = None) -> object: return x")
     ats = arg_types()
     lines.append("def run(%s) -> None:" % ", ".join("a%d: %s" % (j, t) for j, t in enumerate(ats)))
     for c, style in calls:
@@ -170,7 +179,7 @@ def _desc(ovset):
 
 
 def _shape(ovset):
-    return "|".join(str(len(ps)) + ("d" if d else "") for ps, d in ovset)
+    return "|".join(str(len(ps)) + ("d" if d else "") + ("v" if ps[0].startswith("*") else "") for ps, d in ovset)
 
 
 def _run(res, tier, sets, base, only_call=None):
@@ -232,9 +241,10 @@ def _run(res, tier, sets, base, only_call=None):
                 matching = []
                 for i, ov in enumerate(ovset):
                     cc = list(c)
-                    cc[pos] = ov[0][pos] if pos < len(ov[0]) else "object"
-                    if _accepts(ov, tuple(cc)) and pos < len(ov[0]):
-                        matching.append((i, ov[0][pos] == "Any"))
+                    pt = ov[0][0][1:] if ov[0][0].startswith("*") else (ov[0][pos] if pos < len(ov[0]) else None)
+                    cc[pos] = pt if pt is not None else "object"
+                    if _accepts(ov, tuple(cc)) and pt is not None:
+                        matching.append((i, pt == "Any"))
                 res.outcomes["any:%d-matching/%s" % (len(matching), "diagnosed" if diagnosed else "accepted")] += 1
                 if not matching:
                     if not diagnosed:
